@@ -7,6 +7,7 @@ import (
 	schema "github.com/jsightapi/jsight-schema-core"
 	"github.com/jsightapi/jsight-schema-core/errs"
 	"github.com/jsightapi/jsight-schema-core/kit"
+	"github.com/jsightapi/jsight-schema-core/notations/jschema"
 
 	"github.com/jsightapi/jsight-api-core/directive"
 	"github.com/jsightapi/jsight-api-core/jerr"
@@ -46,8 +47,13 @@ func safeAddType(curr schema.Schema, n string, ut schema.Schema) error {
 }
 
 func (core *JApiCore) checkUserType(name string) *jerr.JApiError {
-	err := core.userTypes.GetValue(name).Check()
+	ut := core.userTypes.GetValue(name)
+	err := ut.Check()
 	if err == nil {
+		if js, ok := ut.(*jschema.JSchema); ok && js.Inner != nil && js.Inner.RootNode() == nil {
+			// a body that holds nothing but a comment compiles, but there is no schema in it
+			return core.rawUserTypes.GetValue(name).KeywordError(jerr.BodyIsEmpty)
+		}
 		return nil
 	}
 
